@@ -4,7 +4,7 @@ manifest can never drift from what ./run supports)."""
 import json, subprocess, os
 
 HOOK_COMMITS = ["61b94ce", "8f421be"]
-FIX_COMMITS = ["a51fb22", "b0c8ea5", "98c1f4b", "e663d4c", "32aebe9", "fc86303", "229945c", "8af08bf", "bea63fc"]
+FIX_COMMITS = ["a51fb22", "b0c8ea5", "98c1f4b", "e663d4c", "32aebe9", "fc86303", "229945c", "8af08bf", "0c3e286", "bea63fc"]
 
 # id -> (engine, category, technique, text, note, design_ref)
 CHECKS = {}
@@ -78,6 +78,17 @@ add("C11", "E", "exploration",
     "Every input of the finite families is parsed as snapshot and as delta in int and byte form; every accepted delta is applied to every accepted snapshot of a pool and Delta::create runs between all pool pairs; oracle: returns, no panic, allocation <= 64 x input + 64 KiB, accepted => <=1024 items and <=64 KiB, write/read equality, follow-up operations (items, item, crc, write, recycle + add_item).",
     "Trusted: counting global allocator with thread-local counters; pool limited to ~330 snapshots x ~320 deltas.",
     "DESIGN.md 3/C11")
+
+add("C12", "E", "exploration",
+    "exhaustive enumeration of message sequences (all sequences of length <= n+2 over parts of the current, an older and a newer tick, n <= 5/6 parts) against a reference receiver; listed permutation families up to 32 parts",
+    "For every part count up to 5 (quick) / 6 (thorough), data lengths on both sides of each 900-byte boundary and 6 tick/base pairs, every sequence - hence every permutation with every duplication pattern, interleaved with older and newer ticks - is fed to a real DeltaReceiver and compared step by step with a reference receiver; zero warnings demanded. For 7..32 parts only listed families are run (labelled so in the evidence).",
+    "Trusted: reference receiver (set of part numbers of the newest tick); messages produced by the real sender delta_chunks.",
+    "DESIGN.md 3/C12")
+add("C13", "X", "model_checking",
+    "explicit-state model checking (stateright BFS) of a real sender Storage and a real receiver Manager over two lossy channels",
+    "Every reachable state within budgets (ticks, drops, duplications, acknowledgements) of the real sender/receiver pair; worlds contain ordinal items, two UUID types of different sizes and a multi-part snapshot; accepted snapshots are compared with the sender's world through items() and item(type,id); errors must not move the acknowledged tick to that tick; panics are violations (one recorded known finding).",
+    "Trusted: stateright search; state key = history hash of each real object (over-fine, cannot hide states).",
+    "DESIGN.md 3/C13")
 
 NOT_YET = {}
 
